@@ -14,9 +14,9 @@ pub const PER_BATCH: u64 = 250;
 
 pub fn plan(tier: &str, seed: u64) -> Vec<Batch> {
     let (quiet, swarm) = match tier {
-        "thorough" => (60, 120),
+        "thorough" => (200, 300),
         "dev" => (1, 1),
-        _ => (6, 8),
+        _ => (12, 12),
     };
     let mut v = Vec::new();
     let nops = attack::race_mutating_ops().len() as u64;
